@@ -23,6 +23,8 @@ Zero(n) == [k |-> "Zero", n |-> n]            \* n-bit field constrained to 0 by
 One(n) == [k |-> "One", n |-> n]              \* n-bit field held at 1 (keeps { main >= 1 }-style constraints true)
 UMax(n, m) == [k |-> "UMax", n |-> n, m |-> m]   \* n-bit field with { field <= m }
 UPos(n) == [k |-> "UPos", n |-> n]            \* n-bit field with { field >= 1 }
+URange(n, lo, hi) == [k |-> "URange", n |-> n, lo |-> lo, hi |-> hi]   \* n-bit field with { lo <= field <= hi } (small bounds)
+Pick(fl, t0, t1) == [k |-> "Pick", fl |-> fl, t0 |-> t0, t1 |-> t1]     \* (T fl) inline: T parameterised by an earlier one-bit field; value [v0, v1]
 Bool == [k |-> "Bool"]
 VarU(n) == [k |-> "VarU", n |-> n]            \* VarUInteger n: length field of BitLen(n - 1) bits, then that many bytes
 VarI(n) == [k |-> "VarI", n |-> n]
@@ -78,7 +80,8 @@ AugPost(mp, m, fx, depth) ==
 RECURSIVE EncT(_, _, _), EncAlt(_, _), DictTree(_, _, _), ForkExtraV(_, _), ZeroV(_)
 \* ctx = the record the field lives in (for conditional fields)
 EncT(t, v, ctx) ==
-    CASE t.k \in {"U", "I", "Bits", "Bool", "Leq", "Zero", "One", "UMax", "UPos"} -> Only(v)
+    CASE t.k \in {"U", "I", "Bits", "Bool", "Leq", "Zero", "One", "UMax", "UPos", "URange"} -> Only(v)
+      [] t.k = "Pick" -> IF ctx[t.fl] = <<1>> THEN EncT(t.t1, v.v1, ctx) ELSE EncT(t.t0, v.v0, ctx)
       [] t.k \in {"VarU", "VarI"} -> Only(NatBits(Len(v), BitLen(t.n - 1)) \o ByteBits(v))
       [] t.k = "AddrInt" -> Only(<<1, 0>> \o (IF v.any = <<>> THEN <<0>> ELSE <<1>> \o NatBits(Len(v.any[1]), 5) \o v.any[1]) \o v.wc \o v.hash)
       [] t.k = "AddrExt" -> IF v = <<>> THEN Only(<<0, 0>>) ELSE Only(<<0, 1>> \o NatBits(Len(v[1]), 9) \o v[1])
@@ -118,6 +121,7 @@ DictTree(n, t, entries) ==
 \* fork extras: alternately a fixed non-zero and the all-zero value of the extra's type (only CC, U(n) and single-alternative
 \* record types of such leaves occur as extras in block.tlb)
 ZeroV(t) == CASE t.k \in {"U", "I", "Bits", "Zero", "UMax"} -> [i \in 1..t.n |-> 0]
+              [] t.k = "URange" -> NatBits(t.lo, t.n)
               [] t.k \in {"One", "UPos"} -> NatBits(1, t.n)
               [] t.k = "Leq" -> [i \in 1..BitLen(t.n) |-> 0]
               [] t.k = "Bool" -> <<0>>
@@ -129,7 +133,7 @@ ZeroV(t) == CASE t.k \in {"U", "I", "Bits", "Zero", "UMax"} -> [i \in 1..t.n |->
 ForkExtraV(t, d) ==
     IF d % 2 = 1 THEN ZeroV(t)
     ELSE CASE t.k \in {"U", "I", "Bits", "UPos"} -> [i \in 1..t.n |-> IF i % 2 = 1 THEN 1 ELSE 0]
-           [] t.k \in {"Zero", "One", "UMax"} -> ZeroV(t)
+           [] t.k \in {"Zero", "One", "UMax", "URange"} -> ZeroV(t)
            [] t.k = "Leq" -> NatBits(t.n, BitLen(t.n))
            [] t.k = "Bool" -> <<1>>
            [] t.k \in {"VarU", "VarI"} -> <<3, 9>>
@@ -151,7 +155,8 @@ RECURSIVE Leaves(_, _, _, _), Flat2R(_, _, _, _), BtLeaves(_)
 \* the leaves of a binary tree, left to right
 BtLeaves(v) == IF v.leaf # <<>> THEN v.leaf ELSE BtLeaves(v.kids[1]) \o BtLeaves(v.kids[2])
 Leaves(t, v, ctx, path) ==
-    CASE t.k \in {"U", "Leq", "Zero", "One", "UMax", "UPos"} -> <<Leaf(path, "U", [int |-> BigOfUBits(v)])>>
+    CASE t.k \in {"U", "Leq", "Zero", "One", "UMax", "UPos", "URange"} -> <<Leaf(path, "U", [int |-> BigOfUBits(v)])>>
+      [] t.k = "Pick" -> IF ctx[t.fl] = <<1>> THEN Leaves(t.t1, v.v1, ctx, path) ELSE Leaves(t.t0, v.v0, ctx, path)
       [] t.k = "I" -> <<Leaf(path, t.k, [int |-> BigOfSBits(v)])>>
       [] t.k = "Bits" -> <<Leaf(path, t.k, BytesOrInt(v))>>
       [] t.k = "Bool" -> <<Leaf(path, t.k, [bool |-> v[1]])>>
@@ -232,6 +237,10 @@ DecT(t, sl, ctx) ==
       [] t.k = "Zero" -> LET d == DecBits(sl, t.n) IN IF d.ok /\ AllZero(d.v) THEN d ELSE Bad
       [] t.k = "UPos" -> LET d == DecBits(sl, t.n) IN IF d.ok /\ ~AllZero(d.v) THEN d ELSE Bad
       [] t.k = "UMax" -> LET d == DecBits(sl, t.n) IN IF d.ok /\ BitsLeq(d.v, NatBits(t.m, t.n)) THEN d ELSE Bad
+      [] t.k = "URange" -> LET d == DecBits(sl, t.n) IN
+                           IF d.ok /\ BitsLeq(NatBits(t.lo, t.n), d.v) /\ BitsLeq(d.v, NatBits(t.hi, t.n)) THEN d ELSE Bad
+      [] t.k = "Pick" -> LET one == ctx[t.fl] = <<1>>  d == DecT(IF one THEN t.t1 ELSE t.t0, sl, ctx) IN
+                         IF ~d.ok THEN Bad ELSE Good(IF one THEN [v0 |-> <<>>, v1 |-> d.v] ELSE [v0 |-> d.v, v1 |-> <<>>], d.sl)
       [] t.k = "Leq" -> LET w == BitLen(t.n)  d == DecBits(sl, w) IN IF d.ok /\ BitsLeq(d.v, NatBits(t.n, w)) THEN d ELSE Bad
       [] t.k \in {"VarU", "VarI"} ->
             LET d == DecBits(sl, BitLen(t.n - 1)) IN
